@@ -9,7 +9,8 @@ Translated on every run from the source of the IMPORTED objects (inspect.getsour
   check_aggregates (whole functions), and the overload selection of Compiler._unaryop / _binaryop / _function when it is
   inside the fragment (reported, not required).
 
-CompilerTranslator extends src_api.ApiTranslator (rules R1-R9) by rules that map a Python construct to a PyMini term
+CompilerTranslator extends src_api.ApiTranslator (rules R1-R9; its later rules R14 `iter` and R15 `contains` are NOT
+applied: the compiler iterates over and tests membership in lists only, which the base fragment covers) by rules that map a Python construct to a PyMini term
 built from the EXISTING constructors; what the primitives mean is fixed in coq/Model/PrimsCompiler.v (trusted,
 documented there):
 
@@ -111,6 +112,10 @@ class CompilerTranslator(ApiTranslator):
 
     # ------------------------------------------------------------------ expressions
     def expr(self, e):
+        if isinstance(e, ast.Compare) and len(e.ops) == 1 and isinstance(e.ops[0], (ast.In, ast.NotIn)) \
+                and not isinstance(e.comparators[0], (ast.Set, ast.List, ast.Tuple)):
+            # plain py2mini translation (CIn / CNotIn on a list): ApiTranslator's R15 ("contains") is not applied here
+            return py2mini.FuncTranslator.expr(self, e)
         if isinstance(e, ast.Compare) and len(e.ops) == 1:
             op, left, right = e.ops[0], e.left, e.comparators[0]
             if isinstance(op, (ast.Eq, ast.NotEq)):
@@ -196,9 +201,11 @@ class CompilerTranslator(ApiTranslator):
             return (f'(SIf (XNot {self.expr(s.test)}) [SExpr (XPrim "raise" [{cls}; {self.strconst("")}; '
                     f'(XConst PNone)])] [])')
         if isinstance(s, ast.For):
+            # plain py2mini translation: ApiTranslator's R14 (`for x in E` -> SFor x (XPrim "iter" [E]), meant for
+            # dicts and other iterables of the API code) is not applied here - the compiler only iterates over lists
             self.in_loop += 1
             try:
-                return super().stmt(s)
+                return py2mini.FuncTranslator.stmt(self, s)
             finally:
                 self.in_loop -= 1
         r = self.acc_call(s)
